@@ -324,3 +324,8 @@ mod tests {
         assert_project_to!(projection from [2, 2] is [0.00, 0.00, 0.00, 1.00]);
     }
 }
+
+// Verification hook (inert unless built by `cargo kani`): harnesses for the private items of this module.
+#[cfg(kani)]
+#[path = "/verif/kani/incrate/h_project.rs"]
+mod verif_kani;
